@@ -4,6 +4,7 @@ from harness.wire import Exn
 
 PROP = "C04"
 THEOREM_FILE = "Props/C04.v"
+EXTRA_THEOREM_FILES = ["Props/C04_src.v"]     # source tie: translated source = model (DESIGN 5.1b)
 RULE = ("contains: containers (IPNetwork with/without host bits, IPRange, IPGlob, IPListMixin subclasses) drawn from the "
         "arenas, from every prefix 0..width at the bottom/top/middle of both address spaces and from random blocks; for "
         "each container, operands (IPAddress, IPNetwork with/without host bits, IPRange, IPGlob where glob-shaped, address "
